@@ -242,7 +242,20 @@ def mask_info(st, m):
     key = (canon_key(pr, memo), nkey)
     if key not in cache:
         cache = dict(cache)
-        cache[key] = (MaskInfo(st, m), m)
+        info = MaskInfo(st, m)
+        # extensionality against the other masks of the same length: equal
+        # masks have equal count / sel / rank (numpy fact)
+        for k2, (info2, m2) in cache.items():
+            if k2[1] == nkey:
+                j = qi('j')
+                st.assume(z3.Implies(
+                    forall_idx(m.n, lambda i: m.at(i) == m2.at(i)),
+                    z3.And(info.cnt == info2.cnt, z3.ForAll([j], z3.And(
+                        info.sel(j) == info2.sel(j),
+                        info.rank(j) == info2.rank(j),
+                        info.nsel(j) == info2.nsel(j),
+                        info.nrank(j) == info2.nrank(j))))))
+        cache[key] = (info, m)
         st.ghost['maskinfo'] = cache
     return cache[key][0], True
 
